@@ -2,7 +2,7 @@ SPECIFICATION Spec
 CONSTANTS
   EffTokens = {"pa", "pae", "in", "w", "sp", "pcr", "pcrb"}
   MaxEff = 2
-  Modes = {"normal", "exc", "sysexit"}
+  Modes = {"normal", "exc", "sysexit", "closeOut"}
   FnModes = {"normal", "exc"}
   MaxFns = 1
   Depth = 9
